@@ -46,6 +46,7 @@ def check_page(eng, text, res, exp, oc):
 
 
 def run(oc, tier, seed):
+    pagegen.SAME_DAY_MOD_RATE = 0.25
     rng = random.Random(seed)
     pool = lib.pool()
     eng = lib.Engine()
